@@ -42,7 +42,8 @@ fn pan_replace_entry_with(sh: Shape) {
     let mp: *const M = &m;
     let ret: Option<u8> = kani::any();
     let occupied = scan(&m, &k).val.is_some();
-    if let Entry::Occupied(e) = m.entry(k) {
+    // the handle comes from the guarded hook (the `Entry` enum is intractable, see h_entry.rs)
+    if let Some(e) = m.verif_occupied_entry(k) {
         let _ = e.replace_entry_with(|kk, _v| {
             // the closure owns the value; if it panics now, this is the state that remains
             inv_at_instant(unsafe { &*mp }, Some(*kk));
